@@ -3,7 +3,7 @@
 # Confirms the seeded change (tests pass, demo fails with it / passes without) in the scratch worktree
 # /tmp/mut and runs the given checks against it.  Never touches /repo.
 SEED=$(readlink -f "$1"); shift
-MUT=/tmp/mut
+MUT=${MUT:-/tmp/mut}
 [ -d $MUT ] || git -C /repo worktree add -q --detach $MUT HEAD
 cd $MUT && git checkout -q --detach ${BASE:-main} && git checkout -q -- . && git clean -fdq
 mkdir -p $MUT/_seed/x && cp $SEED/demo.py $MUT/_seed/x/demo.py
